@@ -6,7 +6,7 @@ import ast
 from fractions import Fraction as Fr
 
 from ..frontend import ClassInfo, const_value, src
-from .dim import V, ZERO, bshape, fmt, lf, lf_add, lf_scale, logv, norm_axis, num, unk, wild
+from .dim import V, ZERO, vshape, any_part, bshape, fmt, lf, lf_add, lf_scale, logv, mark_part, norm_axis, num, unk, wild
 
 ELEMENTWISE_SAME = {"abs", "absolute", "fabs", "negative", "copy", "deepcopy", "asarray", "array", "asanyarray", "ascontiguousarray", "float", "astype", "persist", "compute", "nan_to_num", "real", "squeeze_not"}
 LOGSUMEXP = {"numpy.logaddexp.reduce", "scipy.special.logsumexp"}
@@ -66,11 +66,15 @@ def reduce_axes(it, v, axes, node, how):
         if how == "sum":
             if k == "N" and it.c.track_s:
                 out.s = out.s + 1
+            if v.naive_exp and k == "C" and v.k == "num":
+                it.violation("DIM.LOGDOM", node, "the mixture sum over the components is taken in the linear domain (exp of un-normalised log-densities, then sum): it underflows to 0 (log -> -inf) for samples in the tail of every component; use log-sum-exp or exponentiate differences only")
             if v.k == "log":
                 if k == "D":
                     if v.u[1] != 0:
                         return unk("sum over features of a log value whose exponent already depends on d")
                     out.u = lf(0, v.u[0])
+                    out.dconst = None if (v.dconst is None or v.lconst is None) else v.dconst + v.lconst
+                    out.lconst = 0.0
                 elif k == "C":
                     it.violation("DIM.LOGDOM", node, "log-domain values are summed over the component axis: that is the log of a product, not of the mixture sum; components must be combined with log-sum-exp")
                     return unk("sum of logs over components")
@@ -87,6 +91,11 @@ def reduce_axes(it, v, axes, node, how):
 
 
 def call(it, e, env):
+    r = _call(it, e, env)
+    return r
+
+
+def _call(it, e, env):
     P = it.P
     f = it.f
     kind, fexpr, args, kws = P.peel_call(e, f)
@@ -101,7 +110,7 @@ def call(it, e, env):
     starred = [a for a in args if isinstance(a, ast.Starred)]
     if name == "reduce_iadd" and argv and all(v.k == "list" for v in argv):
         # wrapper peeling: in-place add of each list into its element 0
-        outs = tuple(v.elem if v.elem is not None else unk("empty list") for v in argv)
+        outs = tuple(mark_part(v.elem, False) if v.elem is not None else unk("empty list") for v in argv)
         for v in argv:
             it.c.facts.setdefault("reduce_sites", []).append((f.key, e, "operator.iadd", v))
         return outs[0] if len(outs) == 1 else V("tuple", tup=outs)
@@ -111,7 +120,9 @@ def call(it, e, env):
     if isinstance(fexpr, ast.Name) and fexpr.id not in env:
         obj = P.resolve_pkg_name(d)
         if isinstance(obj, ClassInfo):
-            return V("obj", obj=obj.name)
+            o = V("obj", obj=obj.name)
+            o.part = any_part(argv + list(kw.values()))
+            return o
         if obj is not None and hasattr(obj, "node"):
             return it.call_repo(obj, argv, kw, e)
     if isinstance(fexpr, ast.Attribute):
@@ -147,7 +158,9 @@ def call(it, e, env):
         if b == "len":
             v = argv[0] if argv else unk()
             if v.is_numlike and v.sh:
-                return V("num", count_of=v.sh[0], s=1 if (v.sh[0] == "N" and it.c.track_s) else 0, sh=())
+                r = V("num", count_of=v.sh[0], s=1 if (v.sh[0] == "N" and it.c.track_s) else 0, sh=())
+                r.part = v.part
+                return r
             if v.k == "list":
                 return V("num", count_of=v.axis, sh=(), wild=True)
             if v.k == "set":
@@ -188,7 +201,7 @@ def call(it, e, env):
         lst = argv[1]
         if lst.k == "list" and lst.elem is not None:
             it.c.facts.setdefault("reduce_sites", []).append((f.key, e, opn, lst))
-            return lst.elem
+            return mark_part(lst.elem, False)
         return unk("reduce over " + fmt(lst))
     if d in ("operator.add", "operator.iadd") and len(argv) >= 2:
         return it.binop(ast.Add(), argv[0], argv[1], e)
@@ -235,7 +248,10 @@ def call(it, e, env):
         mod_ok = True
     if not mod_ok and not isinstance(fexpr, ast.Name):
         return unk(f"call {src(fexpr)}")
-    return numpy_call(it, last, d, e, env, argv, kw, args)
+    r = numpy_call(it, last, d, e, env, argv, kw, args)
+    if r is not None and any_part(argv + list(kw.values())) and not r.part and not (argv and argv[0].k == "list" and argv[0].axis in ("B", "?1")):
+        r = mark_part(r)
+    return r
 
 
 def array_method(it, base, m, e, env, argv, kw):
@@ -334,6 +350,8 @@ def transpose(it, v, axes, node):
 
 def numpy_call(it, fn, d, e, env, argv, kw, args):
     a0 = argv[0] if argv else None
+    if fn == "atleast_2d" and a0 is not None and a0.is_numlike and a0.sh is not None and len(a0.sh) == 1:
+        return a0.copy(sh=("N",) + tuple(a0.sh))  # a single vector becomes a batch of one sample
     if fn in ("atleast_2d", "atleast_1d", "asarray", "asanyarray", "ascontiguousarray", "squeeze", "nan_to_num", "abs", "absolute", "fabs", "copy", "float64", "real"):
         return a0 if a0 is not None else unk()
     if fn == "array":
@@ -376,7 +394,9 @@ def numpy_call(it, fn, d, e, env, argv, kw, args):
         if a0 is None:
             return unk()
         if a0.k == "log":
-            return V("num", a0.u, a0.s, a0.sh)
+            r = V("num", a0.u, a0.s, a0.sh)
+            r.naive_exp = a0.u != ZERO
+            return r
         if a0.is_numlike and (a0.wild or (a0.u == ZERO and a0.s == 0)):
             return a0.copy(cval=None)
         if a0.is_unk:
@@ -396,7 +416,10 @@ def numpy_call(it, fn, d, e, env, argv, kw, args):
             return wild(a0.sh, math.log(a0.cval) if a0.cval and a0.cval > 0 else None)
         if a0.u == ZERO and a0.s == 0:
             return a0.copy(cval=None)
-        return V("log", a0.u, 0, a0.sh)
+        r = V("log", a0.u, 0, a0.sh)
+        import math
+        r.lconst = None if (a0.mconst is None or a0.mconst <= 0) else math.log(a0.mconst)
+        return r
     if fn == "sqrt":
         return it.power(a0, wild((), 0.5), a0.sh if a0 is not None and a0.is_numlike else None, e) if a0 is not None and a0.is_numlike else unk()
     if fn in ("power", "float_power"):
@@ -414,7 +437,7 @@ def numpy_call(it, fn, d, e, env, argv, kw, args):
         a, b = argv[0], argv[1]
         if a.is_numlike and b.is_numlike:
             it.agree(a, b, e, fn)
-            sh, bad = bshape(a.sh, b.sh, e)
+            sh, bad = vshape(a, b)
             base = b if a.wild else a
             return base.copy(sh=sh, cval=None)
         return a if a.is_numlike else b
@@ -432,7 +455,7 @@ def numpy_call(it, fn, d, e, env, argv, kw, args):
             c, a, b = argv
             if a.is_numlike and b.is_numlike:
                 it.agree(a, b, e, "np.where arms")
-                sh, bad = bshape(a.sh, b.sh, e)
+                sh, bad = vshape(a, b)
                 if c.sh is not None and sh is not None:
                     sh, bad2 = bshape(sh, c.sh, e)
                     if bad2:
@@ -452,12 +475,13 @@ def numpy_call(it, fn, d, e, env, argv, kw, args):
             if el is None:
                 return unk("reduction of empty list")
             if fn in ("sum",) and axes == 0:
-                if a0.axis == "B":
+                if a0.axis in ("B", "?1"):
                     it.c.fold_sites.append((it.f.key, e, el))
                     if it.c.track_s and el.is_numlike and not el.wild and el.s == 0:
-                        it.violation("DIM.D4", e, f"per-block values of type {fmt(el)} are summed over the blocks: they are intensive (S^0)")
+                        it.violation("EXT.D4", e, f"per-block values of type {fmt(el)} are summed over the blocks: they are intensive (S^0)")
                     elif el.is_numlike and not el.wild:
-                        it.ok("DIM.D4", e, f"block partial {fmt(el)} is extensive")
+                        it.ok("EXT.D4", e, f"block partial {fmt(el)} is extensive")
+                    return mark_part(el, False)
                 return el
             return unk(f"{fn} of list")
         if fn in ("sum", "nansum"):
